@@ -40,7 +40,7 @@ type ConnAck struct {
 
 func (p *ConnAck) HasFlag(v byte) bool { return p.flags.Has(v) }
 
-func (p *ConnAck) SetSessionPresent(v bool) { p.flags.toggle(1, true) }
+func (p *ConnAck) SetSessionPresent(v bool) { p.flags.toggle(1, v) }
 func (p *ConnAck) SessionPresent() bool     { return p.flags.Has(1) }
 
 func (p *ConnAck) SetSessionExpiryInterval(v uint32) { p.sessionExpiryInterval = wuint32(v) }
